@@ -393,4 +393,54 @@ def stateSumMatchesBalance (e : Env) (w : World) : Bool :=
   (let bal := w.bank.balance e.mainAddr
    (isZero ints && isZero bal) || (nz ints == nz bal))
 
+/-! ## parameter updates (keeper/msg_server_update_params.go + ValidateBasic) -/
+
+/-- `MsgUpdateParams`: returns the new stored list or none (rejected, nothing changes) -/
+def updateFull (e : Env) (authOk : Bool) (newSubs : List SubD) : Option (List SubD) :=
+  if !authOk then none else if paramsValid e newSubs then some newSubs else none
+
+/-- `MsgUpdateSubDistributorParam` (`sub = none` is the nil pointer, rejected since D10) -/
+def updateSub (e : Env) (authOk : Bool) (stored : List SubD) (sub : Option SubD) : Option (List SubD) :=
+  if !authOk then none else
+  match sub with
+  | none => none
+  | some sd =>
+    if !subValid e sd then none else          -- ValidateBasic
+    if !(stored.any (·.name = sd.name)) then none else
+    -- the first sub-distributor with that name is replaced
+    let rec repl : List SubD → List SubD
+      | [] => []
+      | x :: xs => if x.name = sd.name then sd :: xs else x :: repl xs
+    let ns := repl stored
+    if paramsValid e ns then some ns else none
+
+/-- `MsgUpdateSubDistributorDestinationShareParam`: the FIRST share with that name in any
+    sub-distributor is updated (the sub-distributor name in the message is only checked non-empty) -/
+def updateShare (e : Env) (authOk : Bool) (stored : List SubD) (subName destName : String) (share : Option Int) : Option (List SubD) :=
+  if !authOk then none else
+  if subName = "" || destName = "" || !decInShareRange share then none else     -- ValidateBasic
+  let rec go : List SubD → Option (List SubD)
+    | [] => none
+    | x :: xs =>
+      if x.shares.any (fun sh => !sh.isNil && sh.name = destName) then
+        let rec upd : List Share → List Share
+          | [] => []
+          | sh :: rest => if sh.name = destName then { sh with share := share } :: rest else sh :: upd rest
+        some ({ x with shares := upd x.shares } :: xs)
+      else (go xs).map (x :: ·)
+  match go stored with
+  | none => none
+  | some ns => if paramsValid e ns then some ns else none
+
+/-- `MsgUpdateSubDistributorBurnShareParam` -/
+def updateBurn (e : Env) (authOk : Bool) (stored : List SubD) (subName : String) (burn : Option Int) : Option (List SubD) :=
+  if !authOk then none else
+  if subName = "" || !decInShareRange burn then none else     -- ValidateBasic
+  if !(stored.any (·.name = subName)) then none else
+  let rec repl : List SubD → List SubD
+    | [] => []
+    | x :: xs => if x.name = subName then { x with burnShare := burn } :: xs else x :: repl xs
+  let ns := repl stored
+  if paramsValid e ns then some ns else none
+
 end C4E.Distr
